@@ -11,11 +11,10 @@ structure St where
   led : Led.St := {}
   minFrozen : Nat := 0
   reserved : Reserved := []                 -- MODEL of usedCache (outpoints "T:i")
-  drafts : List (List String) := []         -- inputs of the drafts the MODEL returned
+  drafts : List (String × List String) := []   -- (identity, inputs) of the drafts the MODEL returned
   -- spec side (fed by `judgetx` lines = the ACTUAL results of the implementation)
   lastReq : Option Spec.TxBuild.Req := none
-  sReserved : List Spec.TxBuild.OutPt := []
-  sDrafts : List (List Spec.TxBuild.OutPt) := []
+  sDrafts : List (String × List Spec.TxBuild.OutPt × Bool) := []   -- (identity, inputs, still outstanding)
   deriving Inhabited
 
 def init : St := {}
@@ -33,6 +32,12 @@ def coinsOfAmts (l : List Nat) : List Model.Select.Coin := l.zipIdx.map (fun (a,
 
 /-- API fee ceiling: config.DefaultMaxTxFee = "1.0" MASS -/
 def maxFee : Nat := 100000000
+
+/-- inputs of the drafts that are still outstanding (spec side) -/
+def sReservedOf (ds : List (String × List Spec.TxBuild.OutPt × Bool)) : List Spec.TxBuild.OutPt :=
+  (ds.filter (fun d => d.2.2)).flatMap (fun d => d.2.1)
+
+def St.sReserved (st : St) : List Spec.TxBuild.OutPt := sReservedOf st.sDrafts
 
 /-- does the API release a draft's coins when the fee ceiling rejects it?  (regenerated fact) -/
 def apiReleases : Bool := Gen.TxBuild.apiFeeLimitReleasing == Gen.TxBuild.apiFeeLimitHandlers
@@ -172,6 +177,7 @@ structure AutoReq where
   chg : Option Addr
   payloadLen : Nat
   outs : List Out
+  lock : Nat := 0
   deriving Inhabited
 
 /-- Estimate*TxFee: prepareFromAddresses, output construction, autoConstructTxInAndChangeTxOut -/
@@ -206,13 +212,15 @@ def autoStep (st : St) (kind : Spec.TxBuild.Kind) (r : AutoReq) (reserve : Bool)
   | .error e => (st, if kind.isApi then apiTok (errTok st r e) else errTok st r e)
   | .ok res =>
     let ids := res.ins.map (·.id)
+    let sm := summary res.fee (res.ins.map (·.amt)) r.outs res.change
+    let holder := s!"{sm} lock={r.lock} pl={r.payloadLen}"       -- identity of the draft (its txid in Go)
     if kind.isApi && decide (res.fee > maxFee) then
       -- checkTxFeeLimit runs after the wallet reserved the draft's coins
-      let st := if apiReleases then st else { st with reserved := markUsed st.reserved ids }
+      let st := if apiReleases then st else { st with reserved := markUsed st.reserved holder ids }
       (st, "err:bigfee")
     else
-      let st := if reserve then { st with reserved := markUsed st.reserved ids, drafts := st.drafts ++ [ids] } else st
-      (st, summary res.fee (res.ins.map (·.amt)) r.outs res.change)
+      let st := if reserve then { st with reserved := markUsed st.reserved holder ids, drafts := st.drafts ++ [(holder, ids)] } else st
+      (st, sm)
 
 -- ------------------------------------------------------------------ explicit inputs
 
@@ -224,6 +232,7 @@ def parseIns (s : String) : Option (List (TxId × Nat)) :=
 
 structure ManReq where
   w : Wid
+  lock : Nat := 0
   chg : Option Addr
   sub : List Addr
   ins : List (TxId × Nat)
@@ -271,13 +280,15 @@ def manualStep (st : St) (api : Bool) (r : ManReq) : St × String :=
       match existsMsgTx st r.w i with
       | some (t, _) => (t.outs[i.2]?).map (·.amt)
       | none => none)
+    let outs : List Out := res.outs.map (fun e => ⟨e.1, e.2, .std⟩)
+    let sm := summary res.fee amts outs (if res.change = 0 then none else some (chgAddr, res.change))
+    let holder := s!"{sm} lock={r.lock} ins={ids}"
     if api && decide (res.fee > maxFee) then
-      let st := if apiReleases then st else { st with reserved := markUsed st.reserved ids }
+      let st := if apiReleases then st else { st with reserved := markUsed st.reserved holder ids }
       (st, "err:bigfee")
     else
-      let st := { st with reserved := markUsed st.reserved ids, drafts := st.drafts ++ [ids] }
-      let outs : List Out := res.outs.map (fun e => ⟨e.1, e.2, .std⟩)
-      (st, summary res.fee amts outs (if res.change = 0 then none else some (chgAddr, res.change)))
+      let st := { st with reserved := markUsed st.reserved holder ids, drafts := st.drafts ++ [(holder, ids)] }
+      (st, sm)
 
 -- ------------------------------------------------------------------ the judge
 
@@ -311,7 +322,7 @@ def judgeStep (st : St) (args : List String) : St × String :=
       let verdict := Spec.TxBuild.judge (specView st) req res
       -- a returned draft reserves its inputs for later requests (estimates do not)
       let st := match res, args with
-        | .ok _ _ ins _, "ok" :: "1" :: _ => { st with sReserved := st.sReserved ++ ins, sDrafts := st.sDrafts ++ [ins] }
+        | .ok _ _ ins _, "ok" :: "1" :: _ => { st with sDrafts := st.sDrafts ++ [(" ".intercalate args, ins, true)] }
         | _, _ => st
       (st, if verdict.isEmpty then "ok" else "bad:" ++ ",".intercalate verdict)
 
@@ -332,7 +343,7 @@ def step (st : St) (args : List String) : St × String :=
     | some fee, some _, some pl, some os =>
       if !(nameKnown st sender || sender = "-") || !(nameKnown st chg || chg = "-") || os.any (fun o => !nameKnown st o.addr)
       then (st, "bad-op") else
-      let r : AutoReq := ⟨w, fee, optName sender, optName chg, pl, dedupOuts os⟩
+      let r : AutoReq := ⟨w, fee, optName sender, optName chg, pl, dedupOuts os, _lock.toNat?.getD 0⟩
       if op = "auto" then autoStep st .auto r true else autoStep st .est r false
     | _, _, _, _ => (st, "bad-op")
   | ["apiauto", w, fee, lock, sender, chg, outs] =>
@@ -340,7 +351,7 @@ def step (st : St) (args : List String) : St × String :=
     | some fee, some _, some os =>
       if !(nameKnown st sender || sender = "-") || !(nameKnown st chg || chg = "-") || os.any (fun o => !nameKnown st o.addr)
       then (st, "bad-op") else
-      let r : AutoReq := ⟨w, fee, optName sender, optName chg, 0, dedupOuts os⟩
+      let r : AutoReq := ⟨w, fee, optName sender, optName chg, 0, dedupOuts os, lock.toNat?.getD 0⟩
       if r.outs.isEmpty then ({ st with lastReq := some (specReq .apiAuto r) }, if st.led.wallets.contains w then "err:other" else "bad-op")
       else autoStep st .apiAuto r true
     | _, _, _ => (st, "bad-op")
@@ -348,13 +359,13 @@ def step (st : St) (args : List String) : St × String :=
     match fee.toNat?, lock.toNat?, parseReqOuts "stake" outs with
     | some fee, some _, some os =>
       if !(nameKnown st sender || sender = "-") || os.any (fun o => !nameKnown st o.addr) then (st, "bad-op") else
-      autoStep st .stake ⟨w, fee, optName sender, none, 0, os⟩ true
+      autoStep st .stake ⟨w, fee, optName sender, none, 0, os, lock.toNat?.getD 0⟩ true
     | _, _, _ => (st, "bad-op")
   | ["bind", w, fee, sender, outs] =>
     match fee.toNat?, parseReqOuts "bind" outs with
     | some fee, some os =>
       if !(nameKnown st sender || sender = "-") || os.any (fun o => !nameKnown st o.addr) then (st, "bad-op") else
-      autoStep st .bind ⟨w, fee, optName sender, none, 0, os⟩ true
+      autoStep st .bind ⟨w, fee, optName sender, none, 0, os, 0⟩ true
     | _, _ => (st, "bad-op")
   | [op, w, lock, chg, sub, ins, outs] =>
     if op ≠ "man" ∧ op ≠ "apiman" then (st, "bad-op") else
@@ -363,7 +374,7 @@ def step (st : St) (args : List String) : St × String :=
       let subs := (Led.parseList sub).eraseDups
       if !(nameKnown st chg || chg = "-") || os.any (fun o => !nameKnown st o.addr) || subs.any (fun a => !nameKnown st a) ||
          is.any (fun i => (AMap.get st.led.txs i.1).isNone) then (st, "bad-op") else
-      manualStep st (op = "apiman") ⟨w, optName chg, subs, is, dedupOuts os⟩
+      manualStep st (op = "apiman") ⟨w, lock.toNat?.getD 0, optName chg, subs, is, dedupOuts os⟩
     | _, _, _ => (st, "bad-op")
   | ["signfail", n] =>
     match n.toNat? with
@@ -373,9 +384,11 @@ def step (st : St) (args : List String) : St × String :=
         -- spec side may still know the draft (batch replay): release there too
         (st, "no-draft")
       else
-        let ins := st.drafts.getD (n - 1) []
-        let sIns := st.sDrafts.getD (n - 1) []
-        ({ st with reserved := clearUsed st.reserved ins, sReserved := st.sReserved.filter (fun i => !sIns.contains i) }, "released")
+        let (holder, ins) := st.drafts.getD (n - 1) ("", [])
+        -- spec side: the draft handed out as number n (and any identical copy of it) is no longer outstanding
+        let key := (st.sDrafts.getD (n - 1) ("", [], false)).1
+        let sd := st.sDrafts.map (fun d => if d.1 = key then (d.1, d.2.1, false) else d)
+        ({ st with reserved := clearUsed Gen.TxBuild.releaseChecksHolder st.reserved holder ins, sDrafts := sd }, "released")
   | ["reserved", w] =>
     if !st.led.wallets.contains w then (st, "err") else
     (st, joinSorted ((coinsOf st.led.store w).filterMap (fun c =>
@@ -389,8 +402,8 @@ def step (st : St) (args : List String) : St × String :=
         let cs := eligibleCoins st w addrs
         if cs.length ≥ kStd then "many" else joinSorted (cs.map (fun c => s!"{c.id}:{c.amt}"))
     -- spec: eligibility from the chain ledger (reservations as the model has them)
-    let rs : List Spec.TxBuild.OutPt := st.reserved.filterMap (fun (id : String) =>
-      match id.splitOn ":" with | [t, i] => i.toNat?.map (fun n => (t, n)) | _ => none)
+    let rs : List Spec.TxBuild.OutPt := st.reserved.filterMap (fun (e : String × List String) =>
+      match e.1.splitOn ":" with | [t, i] => i.toNat?.map (fun n => (t, n)) | _ => none)
     let v : Spec.TxBuild.View := { specView st with reserved := rs }
     let senderOk : Bool := match optName sender with
       | some a => (AMap.get st.led.own a).map (fun (e : Wid × Bool) => e.1) == some w
@@ -422,7 +435,7 @@ def step (st : St) (args : List String) : St × String :=
   | ["restart"] =>
     -- a fresh WalletManager: the reservation cache is volatile
     let (l, o) := Led.step st.led args
-    ({ st with led := l, reserved := [], sReserved := [] }, o)
+    ({ st with led := l, reserved := [], sDrafts := st.sDrafts.map (fun d => (d.1, d.2.1, false)) }, o)
   | ["judge"] => (st, "ok\tok")
   | _ =>
     let (l, o) := Led.step st.led args
